@@ -144,7 +144,7 @@ def run(ctx) -> None:
     assigns = lock_assignments(P, "BaseObserver", "_lock")
     ctx.check(assigns == ["BaseObserver.__init__"], RS, "BaseObserver._lock bound once", f"observer lock (re)bound in {assigns}", P.cls("BaseObserver").loc)
 
-    dispatch_shape(ctx, None, None, RL, only_live=True)
+    dispatch_shape(ctx, None, None, RL, only_live=True, RLOCK=RS)
 
     # ---------------------------------------------------------------- stop-and-join (must-effects)
     def calls_in_order(p, pat_stop, pat_join):
